@@ -168,6 +168,11 @@ def _gen_imports(rng, tree):
                     stmt = f"from {dots}{'.'.join(rest[:-1])} import {rest[-1]}"
                 else:
                     stmt = f"from {dots}{'.'.join(rest)} import thing"
+            elif r < 0.34 and len(tparts) >= 2:
+                stmt = f"from {'.'.join(tparts[:-1])} import *"
+            elif r < 0.38 and len(tparts) >= 2:
+                other = pick(rng, cands).split(".")[-1]
+                stmt = f"from {'.'.join(tparts[:-1])} import {tparts[-1]}, {other} as oth"
             elif r < 0.5:
                 stmt = f"import {tgt}"
             elif r < 0.6:
